@@ -170,6 +170,10 @@ def run_case(case, rep=None, count_only=False):
                     res = victim_run(case, ctl, store, spec)
                 except KeyboardInterrupt:
                     out['interrupted'] = True
+                except BaseException as ex:   # noqa
+                    # what run_tasks raises after two interrupts is C14's subject; here only the cache state counts
+                    out['interrupted'] = True
+                    out['raised_instead'] = f'{type(ex).__name__}: {ex}'
                 finally:
                     flag['done'] = True
                     signal.signal(signal.SIGINT, signal.SIG_IGN)
@@ -351,6 +355,8 @@ def run_shard(rep):
             continue
         rep.case(json.dumps(case, sort_keys=True), True)
         rep.count('kills_delivered')
+        if r.get('raised_instead'):
+            rep.foreign['two interrupts: run_tasks raised ' + r['raised_instead'][:80]] += 1
         rep.count(f"kills_{case['kill']['kind']}_{case['backend']}" + ('_fresh' if case.get('fresh_interpreter') else '')
                   + ('_terminate_on_second_interrupt' if case['kill'].get('sig') == 'park' else '')
                   + ('_sigterm_with_exit_handler' if case['kill'].get('handler') else ''))
